@@ -16,7 +16,7 @@ THEOREMS = [
     "C35_capadv_roundtrip", "C35_cmdreq_roundtrip", "C35_lsargs_roundtrip", "C35_fetchargs_roundtrip", "C35_lsout_roundtrip",
     "C35_fetchout_roundtrip", "C35_fetchout_noready_refuted", "C35_fetchout_position",
     "C35_shupd_git", "C35_uphav_git", "C35_srvresp_git", "C35_report_git", "C35_pushopts_git", "C35_capadv_git", "C35_lsout_git", "C35_ulreq_git",
-    "C35_advrefs_git", "C35_updreq_git", "C35_cmdreq_git", "C35_lsargs_git", "C35_fetchargs_git",
+    "C35_advrefs_git", "C35_updreq_git", "C35_cmdreq_git", "C35_lsargs_git", "C35_fetchargs_git", "C35_fetchout_git",
 ]
 MODEL_FILES = ["PktLine.v", "C35UniTable.v", "C35Utf8.v", "Packp.v", "PackpV2.v"]
 MODELLED = ("plumbing/protocol/capability/list.go DecodeList / Add / AppendText; plumbing/objectid.go FromHex / NewHash / String / IsZero / Compare; "
@@ -167,6 +167,50 @@ def mutate(rng, data):
     return bytes(b) + rbytes(rng, rng.randrange(1, 6), b"0123456789abcdef")
 
 
+def mutate_lines(rng, data):
+    """a well-framed variant of a pkt-line stream: one line edited, dropped, doubled or moved, or a special packet added"""
+    pkts, pos = [], 0
+    while pos < len(data):
+        l, pl, e, npos = ref_read(data, pos, 65520)
+        if npos <= pos or e not in ("nil",):
+            return data
+        pkts.append((l, pl))
+        pos = npos
+    idx = [i for i, (l, pl) in enumerate(pkts) if l > 4]
+    if not idx:
+        return data
+    k = rng.randrange(10)
+    i = rng.choice(idx)
+    l, pl = pkts[i]
+    if k <= 3:
+        pl = bytearray(pl)
+        j = rng.randrange(len(pl))
+        edit = rng.choice([b"", b" ", b"  ", b"x", b"g", b"\n", b"=", b"Z", b"0", b"-", b"\x00"])
+        if rng.random() < 0.5:
+            pl[j:j + 1] = edit
+        else:
+            pl[j:j] = edit
+        pkts[i] = (len(pl) + 4, bytes(pl))
+    elif k == 4:
+        del pkts[i]
+    elif k == 5:
+        pkts.insert(i, pkts[i])
+    elif k == 6 and len(idx) > 1:
+        j = rng.choice(idx)
+        pkts[i], pkts[j] = pkts[j], pkts[i]
+    elif k == 7:
+        pkts.insert(rng.randrange(len(pkts) + 1), rng.choice([(0, b""), (1, b""), (2, b""), (4, b"")]))
+    elif k == 8:                            # the stream stops at a packet boundary (sometimes with a flush there)
+        pkts = pkts[:rng.randrange(len(pkts) + 1)] + ([(0, b"")] if rng.random() < 0.5 else [])
+    else:                                   # a line of another kind from the same stream moves behind line i
+        j = rng.choice(idx)
+        pkts.insert(i + 1, pkts[j])
+    out = b""
+    for l, pl in pkts:
+        out += b"%04x" % l if l <= 4 else b"%04x" % (len(pl) + 4) + pl
+    return out
+
+
 # ------------------------------------------------------------------ values
 def gen_value(rng, msg):
     """-> case dict (without kind/chunks) for message msg; a mix of well-formed and hostile values"""
@@ -261,7 +305,7 @@ def gen_value(rng, msg):
                 c["since"] = 1600000000
         elif m == 4 and hostile:
             c["deepen"], c["since"] = 3, 7
-        if rng.random() < 0.12:
+        if rng.random() < 0.3:
             c["filter"] = hx(rng.choice([b"blob:none", b"tree:0", b"blob:limit=1k"]))
         return c
     raise ValueError(msg)
@@ -405,7 +449,7 @@ class Msgs(Suite):
                 r = random.Random(c.pop("_seed"))
                 data = bytes.fromhex(((enc.get(i) or {}).get("extra") or {}).get("bytes") or "")
                 c.pop("_from")
-                c["hex"] = (mutate(r, data) if r.random() < 0.8 else data).hex()
+                c["hex"] = ((mutate_lines(r, data) if r.random() < 0.4 else mutate(r, data)) if r.random() < 0.8 else data).hex()
         return cases
 
     def model_expr(self, c):
@@ -756,6 +800,20 @@ def expected2(c):
     return False, None
 
 
+def cut_after_section(rng, data, k):
+    """the stream up to the k-th delim-pkt (or a packet boundary), then nothing, a flush-pkt or a response-end"""
+    pkts, pos = [], 0
+    while pos < len(data):
+        l, pl, e, npos = ref_read(data, pos, 65520)
+        if npos <= pos or e != "nil":
+            break
+        pkts.append(data[pos:npos])
+        pos = npos
+    after_delim = [i + 1 for i, p in enumerate(pkts) if p == b"0001"]
+    j = after_delim[k % len(after_delim)] if after_delim and rng.random() < 0.85 else rng.randrange(len(pkts) + 1)
+    return b"".join(pkts[:j]) + rng.choice([b"", b"0000", b"0002", b"0000"])
+
+
 def dec_kind(c):
     return "cmd-" + c["args"] if c["msg"] == "cmd" else c["msg"]
 
@@ -780,6 +838,16 @@ class V2(Suite):
             if b == "rt":
                 v.update({"bucket": "rt2-" + dec_kind(v), "kind": "rt2", "chunks": rchunks(rng, 250)})
                 cases.append(v)
+            elif msg == "fetchout" and rng.random() < 0.5:
+                # metadata sections without the acknowledgments in front, cut behind each section
+                H = lambda: hx(rhash(rng, 40))
+                v = {"msg": msg, "kind": "rt2", "chunks": [], "acks": None if rng.random() < 0.7 else {"hashes": [H()], "ready": True},
+                     "shallow": {"sh": [H()], "un": []} if rng.random() < 0.6 else None,
+                     "wanted": [[hx(b"refs/heads/main"), H()]] if rng.random() < 0.4 else None,
+                     "uris": [hx(b"https://cdn.example/p.pack")] if rng.random() < 0.3 else None, "packfile": True}
+                for k in range(sum(1 for x in ("acks", "shallow", "wanted", "uris") if v[x] is not None) or 1):
+                    cases.append({"bucket": "dec2-fetchout-cut", "kind": "dec2", "msg": "fetchout", "_from": v, "cut": k,
+                                  "chunks": rchunks(rng, 120), "_seed": rng.randrange(1 << 30)})
             else:
                 v.update({"kind": "rt2", "chunks": []})
                 dk = dec_kind(v) if rng.random() < 0.85 else rng.choice(V2_DEC)       # sometimes the wrong decoder
@@ -793,7 +861,10 @@ class V2(Suite):
                 c.pop("_from")
                 if r.random() < 0.15:
                     data += r.choice([b"0000", b"0009PACK\n", b"0002", b"000dpackfile\n", b"0001"])     # something after the message
-                c["hex"] = (mutate(r, data) if r.random() < 0.75 else data).hex()
+                if c.get("cut") is not None:
+                    c["hex"] = cut_after_section(r, data, c.pop("cut")).hex()     # a response that stops between two sections
+                    continue
+                c["hex"] = ((mutate_lines(r, data) if r.random() < 0.45 else mutate(r, data)) if r.random() < 0.75 else data).hex()
         return cases
 
     def model_expr(self, c):
@@ -872,45 +943,6 @@ def caps_from(rng, pool, k):
     seen, out = set(), []
     for n, v in rng.sample(pool, min(k, len(pool))):
         out.append([hx(n)] + [hx(x) for x in v])
-    return out
-
-
-def mutate_lines(rng, data):
-    """a well-framed variant of a pkt-line stream: one line edited, dropped, doubled or moved, or a special packet added"""
-    pkts, pos = [], 0
-    while pos < len(data):
-        l, pl, e, npos = ref_read(data, pos, 65520)
-        if npos <= pos or e not in ("nil",):
-            return data
-        pkts.append((l, pl))
-        pos = npos
-    idx = [i for i, (l, pl) in enumerate(pkts) if l > 4]
-    if not idx:
-        return data
-    k = rng.randrange(8)
-    i = rng.choice(idx)
-    l, pl = pkts[i]
-    if k <= 3:
-        pl = bytearray(pl)
-        j = rng.randrange(len(pl))
-        edit = rng.choice([b"", b" ", b"  ", b"x", b"g", b"\n", b"=", b"Z", b"0", b"-", b"\x00"])
-        if rng.random() < 0.5:
-            pl[j:j + 1] = edit
-        else:
-            pl[j:j] = edit
-        pkts[i] = (len(pl) + 4, bytes(pl))
-    elif k == 4:
-        del pkts[i]
-    elif k == 5:
-        pkts.insert(i, pkts[i])
-    elif k == 6 and len(idx) > 1:
-        j = rng.choice(idx)
-        pkts[i], pkts[j] = pkts[j], pkts[i]
-    else:
-        pkts.insert(rng.randrange(len(pkts) + 1), rng.choice([(0, b""), (1, b""), (2, b""), (4, b"")]))
-    out = b""
-    for l, pl in pkts:
-        out += b"%04x" % l if l <= 4 else b"%04x" % (len(pl) + 4) + pl
     return out
 
 
